@@ -1,7 +1,8 @@
 (* C08 — packet identifiers: unique while in use, released exactly once, never leaked.
-   Statements only; proofs in Conn/IdsQuota.v (on top of the allocator refinement of C20) and Conn/WfInv.v.
+   Statements only; proofs in Conn/IdsQuota.v (on top of the allocator refinement of C20), Conn/WfInv.v and
+   Conn/Own.v, Conn/OwnFrame.v, Conn/OwnStep.v (the ownership invariant).
    Nothing else may be added to this file. *)
-From MQ Require Import Base.Prelude Alloc.Alloc Alloc.AllocProofs Conn.Types Conn.ConnRecord Conn.Step Conn.Run Conn.IdsQuota Conn.WfInv.
+From MQ Require Import Base.Prelude Alloc.Alloc Alloc.AllocProofs Conn.Types Conn.ConnRecord Conn.Step Conn.Run Conn.IdsQuota Conn.WfInv Conn.Own Conn.OwnFrame Conn.OwnStep.
 
 (* WFpid (the interval allocator's representation invariant over [1, idmax]) holds initially and
    is re-established by each of the id-management calls below. *)
@@ -79,11 +80,60 @@ Theorem C08_fresh_WFpid_invariant : forall g v ops,
 Proof. exact fresh_WFpid_invariant. Qed.
 Print Assumptions C08_fresh_WFpid_invariant.
 
+(* THE OWNERSHIP INVARIANT.  [OWN g c]: the allocator satisfies WFpid; the identifiers of the stored
+   packets are in use and pairwise distinct; every stored packet has the connection's version and is
+   awaited in exactly the set of its kind (PUBACK / PUBREC / PUBCOMP awaited); every identifier is
+   awaited in at most one of the five sets.  EVERY call of the API keeps it, for a connection whose
+   version is determined, under the application's side of the contract [own_op_ok]: an identifier
+   handed to send() with a QoS>0 PUBLISH, PUBREL, SUBSCRIBE or UNSUBSCRIBE is one the application
+   holds ([fresh]: awaited nowhere, on no stored packet), a QoS 0 PUBLISH carries none, release_packet_id
+   is not called for the identifier of a stored packet, and restore_packets is given packets of the
+   connection's version with identifiers awaited nowhere.  Nothing is assumed about what the peer
+   sends: every received packet, matching or not, keeps it. *)
+Theorem C08_step_keeps_ownership : forall g c o,
+  OWN g c -> c_version c <> VUndet -> own_op_ok c o ->
+  match step g c o with Ok (c', _, _) => OWN g c' /\ c_version c' = c_version c | Panic _ => True end.
+Proof. exact step_keeps_OWN. Qed.
+Print Assumptions C08_step_keeps_ownership.
+
+Theorem C08_ownership_invariant : forall g ops c,
+  OWN g c -> c_version c <> VUndet -> own_history_ok g c ops ->
+  match run_state g c ops with Some c' => OWN g c' | None => True end.
+Proof. exact OWN_invariant. Qed.
+Print Assumptions C08_ownership_invariant.
+
+Theorem C08_fresh_ownership_invariant : forall g v ops,
+  1 <= g_idmax g -> v <> VUndet -> own_history_ok g (conn_new g v) ops ->
+  match run_state g (conn_new g v) ops with Some c' => OWN g c' | None => True end.
+Proof. exact fresh_OWN_invariant. Qed.
+Print Assumptions C08_fresh_ownership_invariant.
+
+(* so WFpid holds in every state of such a history WITHOUT the exception of C08_WFpid_invariant: the
+   unguarded releases of send_stored (oversize stored packets dropped on resume) are releases of
+   identifiers in use, because they are identifiers of stored packets *)
+Theorem C08_ownership_gives_WFpid : forall g c, OWN g c -> WFpid g c.
+Proof. exact OWN_WFpid. Qed.
+Print Assumptions C08_ownership_gives_WFpid.
+
+(* and, read off the invariant: a stored packet's identifier is held and awaited in the set of its kind *)
+Theorem C08_stored_identifier_held : forall g c q, OWN g c -> In q (c_store c) ->
+  is_used c (k_pid q) = true /\
+  mem (k_pid q) (kset (response_of q) (c_puback c) (c_pubrec c) (c_pubcomp c)) = true /\ k_ver q = c_version c.
+Proof. exact own_stored_held. Qed.
+Print Assumptions C08_stored_identifier_held.
+Theorem C08_stored_identifiers_distinct : forall g c, OWN g c -> NoDup (map k_pid (c_store c)).
+Proof. exact own_store_distinct. Qed.
+Print Assumptions C08_stored_identifiers_distinct.
+Theorem C08_awaited_in_one_set : forall g c id, OWN g c ->
+  b2n (mem id (c_puback c)) + b2n (mem id (c_pubrec c)) + b2n (mem id (c_pubcomp c)) + b2n (mem id (c_suback c)) + b2n (mem id (c_unsuback c)) <= 1.
+Proof. exact own_awaited_once. Qed.
+Print Assumptions C08_awaited_in_one_set.
+
 (* C08_partial: the per-call accounting "released events = ids that turn free" for the calls other
-   than the id-management ones, the no-leak-on-close clause, and WFpid across an oversize drop on
-   resume (which needs the ownership invariant "stored identifiers are in use and distinct" under the
-   application contract) are checked by the monitor mon_c08 on the implementation's traces (with the
-   in-use set from the hook) and by the projection correspondence. *)
+   than the id-management ones and the no-leak-on-close clause are checked by the monitor mon_c08 on
+   the implementation's traces (with the in-use set from the hook) and by the projection
+   correspondence; the ownership theorems assume a determined protocol version (an endpoint created
+   as Undetermined adopts one with its first CONNECT). *)
 
 Example C08_nonvacuous :
   let g := mkCfg RClient 65535 2 in
@@ -106,3 +156,23 @@ Example C08_history_nonvacuous :
   history_drops_nothing g (conn_new g V311) ops /\
   match run_state g (conn_new g V311) ops with Some c' => is_used c' 2 = true /\ is_used c' 1 = true | None => False end.
 Proof. vm_compute. repeat split; reflexivity. Qed.
+
+(* the ownership history theorem's premises are satisfiable, on a history that crosses an oversize drop:
+   a v5.0 client with a session publishes QoS 1 (108 bytes stored) and QoS 2, the connection closes, and
+   the next CONNACK (session present) announces Maximum Packet Size 50: the QoS 1 packet is dropped and
+   its identifier released, the QoS 2 packet is resent *)
+Example C08_ownership_nonvacuous :
+  let g := mkCfg RClient 65535 2 in
+  let cn := mkPkt 1 V50 0 0 false false [] None 0 0 20 false 0 false 0 None None None (Some 100) None in
+  let ca1 := mkPkt 2 V50 0 0 false false [] None 0 0 5 true 0 false 0 None None None None None in
+  let ca2 := mkPkt 2 V50 0 0 false false [] None 0 0 10 true 0 true 0 None None (Some 50) None None in
+  let pb1 := mkPkt 3 V50 1 1 false false [116] None 0 100 107 false 0 false 0 None None None None None in
+  let pb2 := mkPkt 3 V50 2 2 false false [116] None 0 0 7 false 0 false 0 None None None None None in
+  let ops := [OSend cn; ORecv [32;3;0;0;0] (PROk ca1); OAcquire; OSend pb1; OAcquire; OSend pb2; OClosed; OSend cn;
+              ORecv [32;3;1;0;0] (PROk ca2)] in
+  own_history_ok g (conn_new g V50) ops /\
+  match run_state g (conn_new g V50) ops with
+  | Some c' => map k_pid (c_store c') = [2] /\ c_puback c' = [] /\ c_pubrec c' = [2] /\ is_used c' 1 = false /\ is_used c' 2 = true
+  | None => False
+  end.
+Proof. vm_compute. repeat split; try reflexivity; try discriminate; intros; try discriminate. Qed.
